@@ -25,14 +25,18 @@ func GetRedisLock(ctx iface.OrdaContext, lockName string, rs *redsync.Redsync) *
 
 // TryLock tries to lock by redis, and returns true if it succeeds; otherwise false
 func (its *RedisLock) TryLock() bool {
-	timeCtx, cancel := ctx.WithTimeout(its.ctx, defaultLeaseTime)
+	// The acquisition itself is not tied to the context of the request: redsync abandons an acquisition whose
+	// context is cancelled in the middle of it without releasing what it has set, and the key then blocks
+	// every request for the name until it expires.
+	timeCtx, cancel := ctx.WithTimeout(ctx.Background(), defaultLeaseTime)
 	defer cancel()
 	if err := its.mutex.LockContext(timeCtx); err != nil {
 		its.ctx.L().Warnf("[🔒] fail to lock '%v': %v", its.lockName, err.Error())
 		return false
 	}
-	if err := timeCtx.Err(); err != nil {
+	if err := its.ctx.Err(); err != nil { // the caller has gone meanwhile
 		its.ctx.L().Warnf("[🔒] fail to lock '%v':%v", its.lockName, err.Error())
+		_, _ = its.mutex.Unlock()
 		return false
 	}
 	its.ctx.L().Infof("[🔒] lock '%v': %v", its.lockName, its.mutex.Until())
